@@ -492,6 +492,17 @@ waitCrash:
 	if stepsDone != nil {
 		<-stepsDone
 	}
+	if pp := fdkit.TakeLoggedPanics(); len(pp) > 0 {
+		// file.d ended itself during run 1 (a goroutine that logged a panic is gone, possibly holding
+		// locks: Stop could hang). One more kill as far as C03 is concerned: the case is not judged.
+		first := pp[0]
+		if i := strings.IndexByte(first, '\n'); i > 0 {
+			first = first[:i]
+		}
+		o.Class("filed-ended-itself")
+		vkit.Note(P, "file.d ended itself during run 1 (not judged): "+first)
+		return o
+	}
 	r1.stop()
 
 	for _, st := range c.StepsDown {
